@@ -1,1 +1,33 @@
-(* placeholder *)
+(* C13 - StartTLS upgrades a connection atomically: the handler runs on the read-loop goroutine, which therefore consumes no LDAP request until it returns; the handshake takes the client's handshake bytes from the head of the input. (What crypto/tls does with those bytes is the oracle of C18.)
+   ONLY statements.  The model is the labelled transition system of Sys.v:
+   every interleaving of the Run thread, any number of Stop calls, connection
+   goroutines, per-request goroutines (with arbitrary handler scripts) and the
+   environment (clients, barriers, slow OnClose).  [reachable cfg s]: s is the
+   result of some label sequence from the initial state.  The boolean fields
+   of [cfg] are the places where the pinned and the current tree differ;
+   [fixed_cfg] is the current tree (validated behaviourally on every run by the
+   scenario correspondence), [pinned_cfg] the tree before the fix commits. *)
+From G Require Import Base Sys SysProofs SysProps.
+Open Scope nat_scope.
+
+Theorem C13_inline : forall cfg s c c' e k sc, conn_step cfg s c = Some (c', e) -> pc c = CInline k sc ->
+  nread c' = nread c /\ started c' = started c /\
+  (input c' = input c \/ exists rest, sc = HHandshake :: rest /\ input c = IHello :: input c').
+Proof. exact c13_inline. Qed.
+Print Assumptions C13_inline.
+
+Theorem C13_handlers_do_not_read : forall cfg s c r c' e, handler_step cfg s c r = Some (c', e) ->
+  input c' = input c /\ nread c' = nread c /\ pc c' = pc c.
+Proof. exact c13_handlers_do_not_read. Qed.
+Print Assumptions C13_handlers_do_not_read.
+
+Theorem C13_first_byte : forall cfg s c k rest inp, pc c = CInline k (HHandshake :: rest) -> input c = IHello :: inp ->
+  exists c', conn_step cfg s c = Some (c', ENone) /\ input c' = inp /\ pc c' = CInline k rest.
+Proof. exact c13_first_byte. Qed.
+Print Assumptions C13_first_byte.
+
+Theorem C13_same_pipeline : forall cfg s i c, reachable cfg s -> conn_of s i c ->
+  (forall r k, In (r, k) (started c) -> 1 <= r <= nread c) /\ increasing (map fst (started c)) /\
+  (pc c = CRead -> nreq c = S (nread c)).
+Proof. exact c06_numbering. Qed.
+Print Assumptions C13_same_pipeline.
